@@ -74,10 +74,9 @@ Qed.
 
 Lemma Quiet_redefine_cell st c newcl :
   Quiet st -> (forall n, In n (s_nodes st) -> node_obj n <> c) ->
-  body_ok (cl_body newcl) = true ->
   Quiet (upd_cells st (set_cell (s_cells st) c newcl)).
 Proof.
-  intros ((HI & C & SO) & Hs & Hrs & Hok) Hno Hbok.
+  intros ((HI & C & SO) & Hs & Hrs) Hno.
   set (st' := upd_cells st (set_cell (s_cells st) c newcl)).
   assert (Hlk : forall c', c' <> c -> lookup_cell (s_cells st') c' = lookup_cell (s_cells st) c').
   { intros c' Hc'. simpl. rewrite lookup_set_cell.
@@ -98,7 +97,6 @@ Proof.
     - intros r _. reflexivity.
     - intros r Hr. exact Hr.
     - intros i _. reflexivity.
-    - exact Hok.
     - intros m Hm Hni _ _. destruct (lookup_data (s_data st) m) as [w|] eqn:Elm; [|now elim Hm].
       destruct (cv_reads _ C m w Elm Hni) as (f & ds & A & B).
       exists f, w, ds. split; [exact A|]. eapply Hsafe; eauto. }
@@ -119,12 +117,11 @@ Proof.
     - intros m Hm. destruct (cv_items _ C m Hm) as (A & B). split; [|exact B].
       rewrite Hcached; [exact A|]. exact (Hno _ Hm).
     - exact (cv_refs _ C).
-    - intros c' Hc'. rewrite Hcached; [now apply (cv_obj _ C)|]. exact (Hno _ Hc'). }
-  split; [|split; [exact Hs|split; [exact Hrs|]]].
-  - split; [|split; [exact C'|intros x Hx; simpl in Hx; rewrite Hs in Hx; destruct Hx]].
-    apply Inv_of_Cov; [exact (proj1 HI)|exact C'].
-  - intros c' cl' Hl. simpl in Hl. rewrite lookup_set_cell in Hl.
-    destruct (Nat.eqb c' c); [inversion Hl; subst; exact Hbok|]. eapply Hok; eauto.
+    - intros c' Hc'. rewrite Hcached; [now apply (cv_obj _ C)|]. exact (Hno _ Hc').
+    - exact (cv_taint _ C). }
+  split; [|split; [exact Hs|exact Hrs]].
+  split; [|split; [exact C'|intros x Hx; simpl in Hx; rewrite Hs in Hx; destruct Hx]].
+  apply Inv_of_Cov; [exact (proj1 HI)|exact C'].
 Qed.
 
 Lemma clear_obj_cells st c : s_cells (clear_obj st c) = s_cells st.
@@ -139,7 +136,6 @@ Qed.
 (** * Every operation keeps the invariant *)
 Definition op_ok (o : op) : Prop :=
   match o with
-  | OpSetFormula _ b _ _ => body_ok b = true
   | OpSetRef _ _ => False          (* reference changes: see the notes in Props/C02.v *)
   | _ => True
   end.
@@ -208,18 +204,17 @@ Proof.
     unfold set_formula in H.
     destruct (lookup_cell (s_cells st) c) as [cl|] eqn:El; inversion H; subst; [|now right].
     right. pose proof (Quiet_clear_obj st c Q) as Q1.
-    apply Quiet_redefine_cell; [exact Q1|intros n Hn; now apply clear_obj_nodes in Hn|exact Hop].
+    apply Quiet_redefine_cell; [exact Q1|intros n Hn; now apply clear_obj_nodes in Hn].
   - (* set cached *)
     unfold set_cached in H.
     destruct (lookup_cell (s_cells st) c) as [cl|] eqn:El; [|inversion H; subst; now right].
     destruct (Bool.eqb (cl_cached cl) b); inversion H; subst; [now right|].
     right. pose proof (Quiet_clear_obj st c Q) as Q1.
-    apply Quiet_redefine_cell; [exact Q1|intros n Hn; now apply clear_obj_nodes in Hn|].
-    simpl. destruct Q as (_ & _ & _ & Hok). eapply Hok; eauto.
+    apply Quiet_redefine_cell; [exact Q1|intros n Hn; now apply clear_obj_nodes in Hn].
   - destruct Hop.
   - inversion H; subst. right.
-    destruct Q as ((HI & C & SO) & Hs & Hrs & Hok).
-    split; [|split; [exact Hs|split; [exact Hrs|exact Hok]]].
+    destruct Q as ((HI & C & SO) & Hs & Hrs).
+    split; [|split; [exact Hs|exact Hrs]].
     split; [exact HI|split; [|exact SO]]. constructor; apply C.
 Qed.
 
